@@ -6,6 +6,7 @@ pub mod c05;
 pub mod c06;
 pub mod c07;
 pub mod c09;
+pub mod c10;
 pub mod c12;
 pub mod c14;
 pub mod c15;
@@ -28,6 +29,7 @@ pub const PROPS: &[Prop] = &[
     Prop { id: "C06", run: c06::run, replay: c06::replay },
     Prop { id: "C07", run: c07::run, replay: c07::replay },
     Prop { id: "C09", run: c09::run, replay: c09::replay },
+    Prop { id: "C10", run: c10::run, replay: c10::replay },
     Prop { id: "C12", run: c12::run, replay: c12::replay },
     Prop { id: "C14", run: c14::run, replay: c14::replay },
     Prop { id: "C15", run: c15::run, replay: c15::replay },
